@@ -238,6 +238,9 @@ func (c20) Oracle(c *Case, got []hist.Obs) string {
 	if c.Meta["kind"] == "snap" {
 		return c20sOracle(c, got) // c20_snap.go
 	}
+	if c.Meta["kind"] == "ctx" {
+		return c20xOracle(c, got) // c20_ctx.go
+	}
 	ops := c.Meta["ops"].([]c20Op)
 	var vars []*c20Abs
 	type seen struct {
@@ -302,7 +305,12 @@ func (c20) Oracle(c *Case, got []hist.Obs) string {
 	return ""
 }
 
-func (c20) Compare(c *Case, exp, got []hist.Obs) string { return CompareAll(exp, got) }
+func (c20) Compare(c *Case, exp, got []hist.Obs) string {
+	if c.Meta["kind"] == "ctx" {
+		return c20xCompare(exp, got) // the replayed renders of a kept File are not compared
+	}
+	return CompareAll(exp, got)
+}
 
 // ---- measuring a history (tags, non-triviality) ----
 
@@ -619,7 +627,9 @@ func (c20) Generate(r *rand.Rand, t string) []*Case {
 	// large histories (c20_sizes.go): generated last (the draws of the older streams are
 	// unchanged), evaluated first (the model needs seconds for the largest ones: its co-processes
 	// take the lines in order, so they overlap with everything else)
-	return append(c20SizesGenerate(r, t), out...)
+	sizes := c20SizesGenerate(r, t)
+	// how the variables are rendered (kept Files) and where the clones are taken (callbacks): c20_ctx.go
+	return append(append(sizes, out...), c20xGenerate(r, t)...)
 }
 
 func c20Letters(prefix string, n int, chained bool) []c20Item {
@@ -696,6 +706,9 @@ func (c20) Regressions() []*Case {
 func (c20) Shrink(c *Case) []*Case {
 	if c.Meta["kind"] == "snap" {
 		return c20sShrink(c)
+	}
+	if c.Meta["kind"] == "ctx" {
+		return c20xShrink(c)
 	}
 	if _, ok := c.Meta["size"].(c20Size); ok {
 		return c20SizesShrink(c) // one candidate per operation would be thousands of large histories
